@@ -702,3 +702,91 @@ def r10k_config_location(ctx):
             r.ok(sample={"config_loader": f.id})
     r.floor("configuration loaders", n, 1)
     return r
+
+
+# ------------------------------------------------------------------------------------------ R10l: the ignore set is exact
+def r10l_skip_predicate_exact(ctx):
+    r = Result("R10l", "the directory-ignore predicate (by role: a bool function over a name that consults a table of literals "
+                       "containing `.git` / `__pycache__`) matches names exactly as they are on disk: no case folding "
+                       "(to_lowercase, to_ascii_lowercase, eq_ignore_ascii_case, ...) in it. Folding widens the ignored set on a "
+                       "case-sensitive file system (`Build/`, `Env/`): the test files below such a directory are never indexed")
+    crate = ctx.bin
+    n = 0
+    for f in crate.real_fns():
+        if f.kind not in ("fn", "method") or f.ret != "bool":
+            continue
+        fam = [g for g in crate.real_fns() if g.root == f.id]
+        lits = set()
+        for g in fam:
+            for bb, si, pl, rv, sp in g.assigns():
+                for o in (rv[2] if rv[0] == "agg" else [rv[1]] if rv[0] in ("use",) else [rv[2]] if rv[0] == "cast" else []):
+                    k = op_const(o) if isinstance(o, list) else None
+                    if k and "named" in k:
+                        lits |= crate.const_literals(k["named"])
+                    if k and "promoted" in k:
+                        lits |= crate.const_literals("%s::promoted[%d]" % (k["of"], k["promoted"]))
+            for bb, c in g.calls():
+                for a in c["args"]:
+                    k = op_const(a) if isinstance(a, list) else None
+                    if k and "named" in k:
+                        lits |= crate.const_literals(k["named"])
+                    if k and "promoted" in k:
+                        lits |= crate.const_literals("%s::promoted[%d]" % (k["of"], k["promoted"]))
+        if not ({".git", "__pycache__"} & lits):
+            continue
+        n += 1
+        fold = sorted({(c.get("res") or "").split("::")[-1] for g in fam for _b, c in g.calls()
+                       if re.search(r"::(to_lowercase|to_ascii_lowercase|to_uppercase|to_ascii_uppercase|eq_ignore_ascii_case|make_ascii_lowercase)$", c.get("res") or "")})
+        key = "R10l|%s" % f.id
+        if fold:
+            r.violate(key, "%s folds the case of the name (%s) before matching the ignore table" % (f.id, fold))
+        else:
+            r.ok(sample={"ignore_predicate": f.id.split("::")[-1], "table_size": len(lits)})
+    r.floor("directory-ignore predicates", n, 1)
+    return r
+
+
+# ------------------------------------------------------------------------------------------ R10m: imports are transitive
+def r10m_import_reads_are_transitive(ctx):
+    r = Result("R10m", "in the computation of the fixtures a file imports (the recursion cycle that fills the imported-fixtures "
+                       "memo) every look at what a resolved module DEFINES (a read of the per-file definition index keyed by the "
+                       "resolved path) is followed, for the same path, by the recursive call that adds what that module IMPORTS: a "
+                       "branch that consults only the module's own definitions loses names the module merely re-exports "
+                       "(`from .db import *` in a package `__init__`)")
+    db = _db(ctx)
+    crate = ctx.bin
+    from .r3d import fill_functions, stamped_caches
+    from .r7 import _root_local
+    memo = [m for m, k in stamped_caches(db).items() if k == 2]   # (content hash, version, names): the import memo
+    fills = fill_functions(db)
+    n = 0
+    idx_maps = set(db.maps_where(lambda k, v: k == "std::path::PathBuf" and v.startswith("std::collections::HashSet<std::string::String")))
+    for m in memo:
+        fid = fills.get(m)
+        if fid is None:
+            continue
+        comp = None
+        for c_ in db.cg.sccs():
+            if fid in c_:
+                comp = set(c_)
+        if not comp:
+            continue
+        for gid in sorted(comp):
+            g = crate.fns[gid]
+            dom = g.dominators()
+            rec = [(bb, c) for bb, c in g.calls() if c.get("res") in comp]
+            for op in db.fn_ops(gid):
+                if op.method != "get" or op.ident.split(".")[-1] not in idx_maps or len(op.call["args"]) < 2:
+                    continue
+                # only reads that also feed the result (skip pure membership tests of other maps)
+                k = _root_local(g, op.call["args"][1])
+                n += 1
+                key = "R10m|%s|%s.get" % (gid, op.ident.split(".")[-1])
+                ok = any(op.bb in dom.get(bb, set()) and any(_root_local(g, a) == k for a in c["args"][1:]) for bb, c in rec)
+                if ok:
+                    r.ok(sample={"read": key, "followed_by": "recursive call for the same path"})
+                else:
+                    r.violate(key, "%s reads `%s` for a resolved module at %s without a recursive call for the same path: names the "
+                                   "module re-exports are not seen" % (gid.split("::")[-1], op.ident.split(".")[-1], crate.span_str(op.call["span"])))
+    r.floor("definition-index reads in the import computation", n, 2)
+    return r
